@@ -40,7 +40,7 @@ def run(tier):
         u[vlib.canon_hash(s)] = s
     scen = list(u.values())[: (8000 if quick else 200000)]
     for i, s in enumerate(scen):
-        s["mode"] = i % 8
+        s["mode"] = i % 10
         s["ignore"] = ["none", "none", "client", "none", "server", "none", "none"][i % 7]      # Stream::ignore_client_data / ignore_server_data
     p = vlib.Pipeline(PROP, "tcp_follower", "tcp/FollowerTrace")
     chunk = 20000
@@ -59,7 +59,7 @@ def run(tier):
                 "reordering/duplication/overlap, FIN/FIN and RST closes incl. RST after FIN, mid-stream attach, chunk and "
                 "byte limit overflow per direction and across directions, retransmitted SYN, reuse of the 4-tuple after "
                 "close, idle, an ECN-setup handshake with ECE/CWR/URG bits on later segments), interleaved by TLC -simulate with capture-time gaps {0,3,10,25} (keep-alive 10), attach "
-                "on/off; endpoint relation rotates over 8 adversarial classes (another host, crossed ports, swapped hosts, both ends of a connection on the same port, "
+                "on/off; endpoint relation rotates over 10 adversarial classes (another host, crossed ports, swapped hosts, both ends of a connection on the same port, both ends on the same address, "
                 "one-bit port differences, same 4-tuple in IPv4 and IPv6), both families, ISNs next to 0/2^31/2^32; "
                 "non-trivial = both connections present and some data",
         "model_checked": {"FollowerKey": "all endpoint pairs over 2 families x 3 addresses x 2 ports",
